@@ -13,7 +13,7 @@ TECHNIQUE = "explicit enumeration of all event histories (execute / check-condit
 RULE = ("all sequences of up to D events (D=5 quick, 6 thorough) over {execute GOOD, execute CHECK CONDITION, replug (node replaced by a new "
         "inode), unplug, sabotage (next close() of the live handle fails with EBADF), open-fault (the next open() of the device path fails once with EACCES)}, each followed by every closing event {none, close(), "
         "with-block normal exit, with-block exit by exception, SCSI facade with-block exit, exit of a facade that was used for and left another device before}, x replug detection {on, off} x {read-only, "
-        "read-write}; histories one event shorter also with the device path being a symbolic link to the node that is replaced, with the node being a character special file replaced by one of the same device number, and with the path being a link re-pointed to a node of another name while the old node stays (device object from init_device); histories with an unplug also with the node vanishing as ELOOP (self-referencing link) and ENOTDIR (its directory replaced by a file); plus ISCSIDevice close/with/disconnect histories. states = distinct (reference-model state, observed handle set) "
+        "read-write}; histories one event shorter also with the device path being a symbolic link to the node that is replaced, with the node being a character special file replaced by one of the same device number, and with the path being a link re-pointed to a node of another name while the old node stays (device object from init_device); histories with an unplug also with the node vanishing as ELOOP (self-referencing link) and ENOTDIR (its directory replaced by a file); histories with a command also with every command executed with en_raw_sense=True (the ATA PASS-THROUGH path); plus ISCSIDevice close/with/disconnect histories. states = distinct (reference-model state, observed handle set) "
         "pairs; transitions = events executed on the real device. Non-trivial = history contains replug, unplug or sabotage.")
 ASSUMPTIONS = [
     "device nodes are real files under /dev/shm/pyscsi-verif-<pid>/ (real inodes, real open/stat/close); replug = rename of a new file over the path, old inode kept alive by a hard link so inode numbers are never recycled",
@@ -46,7 +46,7 @@ class Boom(Exception):
     pass
 
 
-def run_history(detect, rw, events, closer, obs=None, symlink=False, chr=False, factory=False, vanish="unlink"):
+def run_history(detect, rw, events, closer, obs=None, symlink=False, chr=False, factory=False, vanish="unlink", raw=False):
     """replay one history on a fresh device; returns violations"""
     install.ensure()
     from pyscsi.pyscsi.scsi_cdb_testunitready import TestUnitReady
@@ -119,7 +119,13 @@ def run_history(detect, rw, events, closer, obs=None, symlink=False, chr=False, 
                 cmd = TestUnitReady(dev.opcodes.TEST_UNIT_READY)
                 was_armed = armed[0]
                 try:
-                    dev.execute(cmd)
+                    if raw:
+                        # the way ATA PASS-THROUGH is executed: sense data handed back on the command instead of raised
+                        dev.execute(cmd, en_raw_sense=True)
+                        if ev == "c" and not getattr(cmd, "raw_sense_data", None):
+                            out.append(("raw_sense_lost", "%s: CHECK CONDITION with en_raw_sense=True: no raw_sense_data on the command" % where))
+                    else:
+                        dev.execute(cmd)
                     oc = ("ret", None)
                 except Exception as e:   # noqa: BLE001
                     oc = ("exc", e)
@@ -155,7 +161,7 @@ def run_history(detect, rw, events, closer, obs=None, symlink=False, chr=False, 
                         if oc[0] == "ret" and len(sent) != 1:
                             out.append(("returned_without_sending", "%s" % where))
                     else:
-                        out += _expect_sent(ev, oc, sent, where)
+                        out += _expect_sent("x" if raw else ev, oc, sent, where)
                     if not fired:
                         m["hgen"], m["sab"], m["closed"] = m["gen"], False, False
                         hs = node.open_handles()
@@ -167,7 +173,7 @@ def run_history(detect, rw, events, closer, obs=None, symlink=False, chr=False, 
                         if oc[0] != "exc" or sent:
                             out.append(("dead_handle_looks_fine", "%s: handle closed behind the library, outcome %s sent=%d" % (where, _oc(oc), len(sent))))
                     else:
-                        out += _expect_sent(ev, oc, sent, where)
+                        out += _expect_sent("x" if raw else ev, oc, sent, where)
             # ---- after every event: handle population agrees with the model
             hs = [g for _, g in node.open_handles()]
             want = [] if (m["sab"] or m["closed"]) else [m["hgen"]]
@@ -342,7 +348,7 @@ def run_case(case, obs=None):
         _, detect, rw, events, closer = case[:5]
         kind = case[5] if len(case) > 5 else 0
         return run_history(detect, rw, events, closer, obs, symlink=(kind == 1) or ("repoint" if kind == 3 else False), chr=kind == 2, factory=kind == 3,
-                           vanish={4: "eloop", 5: "enotdir"}.get(kind, "unlink"))
+                           vanish={4: "eloop", 5: "enotdir"}.get(kind, "unlink"), raw=kind == 6)
     return run_iscsi(case[1], obs)
 
 
@@ -399,6 +405,9 @@ def run_partition(part, tier, seed):
             if detect:
                 do(["sg", detect, rw, events, "close", 3], any(e in events for e in "ruso"), len(events))
             # ... and with other ways for the node to vanish: its name becomes a self-referencing link (ELOOP), its directory a plain file (ENOTDIR)
+            # ... and with every command executed the way ATA PASS-THROUGH is (en_raw_sense=True)
+            if any(e in events for e in "xc"):
+                do(["sg", detect, rw, events, "close", 6], any(e in events for e in "ruso"), len(events))
             if "u" in events:
                 do(["sg", detect, rw, events, "close", 4], True, len(events))
                 do(["sg", detect, rw, events, "close", 5], True, len(events))
